@@ -32,6 +32,73 @@ func (in *Inst) newObj(instr ssa.Instruction, name string, ln *Term, typ string,
 	return S.SymTerm(sy)
 }
 
+// storeDominatesReads: t writes a field of a struct local directly, and every instruction that may read that field
+// (loads of the field, loads of the whole value, calls the struct is handed to) is dominated by t.
+func storeDominatesReads(t *ssa.Store) bool {
+	fa, ok := t.Addr.(*ssa.FieldAddr)
+	var al *ssa.Alloc
+	whole := false
+	if ok {
+		al, ok = fa.X.(*ssa.Alloc)
+	} else if al, ok = t.Addr.(*ssa.Alloc); ok {
+		whole = true // the whole value is written: every field
+	}
+	if !ok || al.Referrers() == nil {
+		return false
+	}
+	dom := func(u ssa.Instruction) bool {
+		tb, ub := t.Block(), u.Block()
+		if tb == nil || ub == nil {
+			return false
+		}
+		if tb == ub {
+			ti, ui := -1, -1
+			for i, x := range tb.Instrs {
+				if x == ssa.Instruction(t) {
+					ti = i
+				}
+				if x == u {
+					ui = i
+				}
+			}
+			return ti >= 0 && ui >= 0 && ti < ui
+		}
+		return tb.Dominates(ub)
+	}
+	for _, r := range *al.Referrers() {
+		switch r := r.(type) {
+		case *ssa.DebugRef, *ssa.Store:
+		case *ssa.FieldAddr:
+			if (!whole && r.Field != fa.Field) || r.Referrers() == nil {
+				continue
+			}
+			for _, u := range *r.Referrers() {
+				if ld, ok := u.(*ssa.UnOp); ok && !dom(ld) {
+					return false
+				}
+			}
+		case *ssa.UnOp:
+			if !dom(r) {
+				return false
+			}
+		case *ssa.Call:
+			if !dom(r) {
+				return false
+			}
+		default:
+			return false
+		}
+	}
+	return true
+}
+
+func (in *Inst) cellDepth(c *Symbol) int {
+	if d, ok := in.X.cellLoopDepth[c]; ok {
+		return d
+	}
+	return -1
+}
+
 func zeroOf(S *Store, t types.Type) *Term {
 	switch tyClass(t) {
 	case TInt:
@@ -63,6 +130,35 @@ func (in *Inst) instr(instr ssa.Instruction, g *Term, b *ssa.BasicBlock) {
 			in.vals[t] = a
 			return
 		}
+		if st, ok := et.Underlying().(*types.Struct); ok && in.fieldCellable(t) {
+			// the object itself leaves no trace (no allocation event); its fields are cells
+			osy := in.newSym(SObj, t.Comment, TRef)
+			osy.Obj = t
+			osy.Pos = t.Pos()
+			osy.Attr = map[string]*Term{"fieldcells": S.True}
+			in.X.objOf[t] = osy
+			var cells []*Symbol
+			for i := 0; i < st.NumFields(); i++ {
+				c := in.newSym(SObj, t.Comment+"."+st.Field(i).Name(), TRef)
+				c.Obj = t
+				c.Pos = t.Pos()
+				c.Attr = map[string]*Term{"cell": S.True, "allocg": g}
+				if isSliceType(st.Field(i).Type()) {
+					c.Attr["slicecell"] = S.True
+				}
+				in.X.cellCur[c] = zeroOf(S, st.Field(i).Type())
+				cells = append(cells, c)
+			}
+			in.X.fieldCells[osy] = cells
+			if in.X.cellLoopDepth == nil {
+				in.X.cellLoopDepth = map[*Symbol]int{}
+			}
+			for _, c := range cells {
+				in.X.cellLoopDepth[c] = len(in.loops)
+			}
+			in.vals[t] = S.SymTerm(osy)
+			return
+		}
 		var ln *Term
 		if at, ok := et.Underlying().(*types.Array); ok {
 			ln = S.Int(at.Len())
@@ -71,7 +167,11 @@ func (in *Inst) instr(instr ssa.Instruction, g *Term, b *ssa.BasicBlock) {
 		if name == "" {
 			name = "new"
 		}
-		in.vals[t] = in.newObj(t, name, ln, et.String(), g, false)
+		tyName := et.String()
+		if _, isStruct := et.Underlying().(*types.Struct); !isStruct {
+			tyName = et.Underlying().String() // `type hist [10]int` allocates a [10]int
+		}
+		in.vals[t] = in.newObj(t, name, ln, tyName, g, false)
 	case *ssa.MakeSlice:
 		ln := u(t.Len)
 		o := in.newObj(t, "makeslice", ln, t.Type().String(), g, false)
@@ -111,13 +211,21 @@ func (in *Inst) instr(instr ssa.Instruction, g *Term, b *ssa.BasicBlock) {
 		}
 	case *ssa.FieldAddr:
 		base := u(t.X)
+		if base.K == KSym {
+			if cells := in.X.fieldCells[base.Sym]; cells != nil && t.Field < len(cells) {
+				in.vals[t] = S.SymTerm(cells[t.Field])
+				return
+			}
+		}
 		st := deref(t.X.Type()).Underlying().(*types.Struct)
 		in.vals[t] = in.mkAddr(base, fieldMarker(S, st.Field(t.Field).Name()))
 	case *ssa.Field:
 		base := u(t.X)
 		st := t.X.Type().Underlying().(*types.Struct)
 		fm := fieldMarker(S, st.Field(t.Field).Name())
-		if base.Op == "at" {
+		if base.Op == "mkstruct" && t.Field < len(base.Args) {
+			in.vals[t] = base.Args[t.Field]
+		} else if base.Op == "at" {
 			addr := in.mkAddr(base, fm)
 			in.vals[t] = in.load(addr, t.Type(), g, t, b)
 		} else {
@@ -311,6 +419,16 @@ func (in *Inst) load(addr *Term, typ types.Type, g *Term, instr ssa.Instruction,
 		}
 		return S.Restrict(cur, g)
 	}
+	if addr.K == KSym {
+		if cells := in.X.fieldCells[addr.Sym]; cells != nil {
+			// the whole bundle read at once
+			vals := make([]*Term, len(cells))
+			for i, c := range cells {
+				vals[i] = S.Restrict(in.X.cellCur[c], g)
+			}
+			return S.mkOp("mkstruct", TOther, vals...)
+		}
+	}
 	root, path, ok := addrParts(addr)
 	if !ok {
 		// pointer value used directly: *p
@@ -426,12 +544,49 @@ func (in *Inst) store(t *ssa.Store, g *Term, b *ssa.BasicBlock) {
 	val := in.use(t.Val, b)
 	if isCellTerm(addr) {
 		old := in.X.cellCur[addr.Sym]
+		// a store that happens whenever the object exists at all (same path condition as its allocation, in the same
+		// region: the field initialisers of a composite literal) is unconditional as far as any read can tell
+		if ag := addr.Sym.Attr["allocg"]; ag != nil && g != S.True && len(in.loops) == in.cellDepth(addr.Sym) && S.Implies(ag, g) {
+			old = nil
+		}
+		// so is a store that every read of the field is dominated by
+		if old != nil && g != S.True && storeDominatesReads(t) {
+			old = nil
+		}
 		if old == nil || g == S.True {
 			in.X.cellCur[addr.Sym] = val
 		} else {
 			in.X.cellCur[addr.Sym] = S.Op("ite", val.Ty, g, val, old)
 		}
 		return
+	}
+	if addr.K == KSym {
+		if cells := in.X.fieldCells[addr.Sym]; cells != nil {
+			// the whole bundle written at once
+			uncond := g != S.True && storeDominatesReads(t)
+			for i, c := range cells {
+				var fv *Term
+				switch {
+				case val.Op == "mkstruct" && len(val.Args) == len(cells):
+					fv = val.Args[i]
+				case strings.HasPrefix(val.Op, "zero:") || val.K == KConst:
+					st := deref(t.Addr.Type()).Underlying().(*types.Struct)
+					fv = zeroOf(S, st.Field(i).Type())
+				case val.Op == "at":
+					in.X.und("%s: whole-value store of %v into a bundled struct", in.Fn, val)
+					return
+				default:
+					st := deref(t.Addr.Type()).Underlying().(*types.Struct)
+					fv = S.mkOp("fieldval", tyClass(st.Field(i).Type()), val, fieldMarker(S, st.Field(i).Name()))
+				}
+				if old := in.X.cellCur[c]; old == nil || g == S.True || uncond {
+					in.X.cellCur[c] = fv
+				} else {
+					in.X.cellCur[c] = S.Op("ite", fv.Ty, g, fv, old)
+				}
+			}
+			return
+		}
 	}
 	root, path, ok := addrParts(addr)
 	if !ok {
@@ -646,7 +801,7 @@ func (in *Inst) argsReadOnly(args []*Term) bool {
 func (in *Inst) inline(fn *ssa.Function, args []*Term, clo *closureVal, g *Term, v ssa.Value) *Term {
 	S := in.X.S
 	sub := &Inst{X: in.X, Fn: fn, Args: args, vals: map[ssa.Value]*Term{}, Parent: in, depth: in.depth + 1,
-		cfg: in.X.cfgOf(fn), sum: in.sum, valLoop: map[ssa.Value]*LoopS{}}
+		cfg: in.X.cfgOf(fn), sum: in.sum, valLoop: map[ssa.Value]*LoopS{}, callSite: v}
 	if clo != nil {
 		sub.Free = clo.Free
 	}
